@@ -581,7 +581,17 @@ fn account_case(cx: &'static Arc<Ctx>, cref: CaseRef, out: Out, slept: u32, labe
 		// keep the first few per key, bounded overall
 		let same = g.iter().filter(|(x, _)| x.key == v.key).count();
 		if same < 3 && (n < 100_000 || same == 0) && g.len() < 2000 {
-			let cref = CaseRef { label: Arc::from(label()), ..cref };
+			// (labels of very long games are cut: the artefact carries the input itself)
+			let mut l = label();
+			if l.len() > 600 {
+				let mut cut = 600;
+				while !l.is_char_boundary(cut) {
+					cut -= 1;
+				}
+				l.truncate(cut);
+				l.push_str(" ...");
+			}
+			let cref = CaseRef { label: Arc::from(l), ..cref };
 			let v2 = Viol { key: v.key.clone(), msg: format!("{}: {}", cref.label, v.msg) };
 			let art = artefact(&cref, &v2);
 			g.push((v2, art));
